@@ -17,8 +17,8 @@ import ColaVerif.Model.NumOpsA
 * `while_loop_winfo` bookkeeping: `iterations` = number of evaluations of the stopping test,
   `errors` = tracked value (`norm` of start vector 0) at every evaluation plus the final one,
   first two entries dropped;
-* `arnoldi_eigs` hands `Q[:, :-1]`, `H[:-1]` to `xnp.eig` — the square part of the *buffer*,
-  including the columns of steps that were never executed.
+* `arnoldi_eigs` hands `Q[:, :k]`, `H[:k, :k]`, `k` = executed steps, to `xnp.eig` (since the repair of
+  defect (a); the old variant — the square part of the whole buffer — is `trim = false`).
 
 Everything is generic over the law-free classes `Num α`, `VecOps α V`; the operator is its
 matrix–vector product `A : V → V`.
@@ -129,11 +129,12 @@ def infoErrors (s : State α V) : Array α := (s.errs.push (errOf s)).extract 2 
 
 /-! ### `arnoldi_eigs` -/
 
-/-- Switch for defect (a).  `false` mirrors /repo: `Q, H = Q[:, :-1], H[:-1]` — the square part of
-the whole buffer (`max_iters` columns) goes to `eig`, whatever the number of executed steps.
-`true` is the proposed repair: trim to the executed steps `k = info['iterations'] - 1`
-(`Q, H = Q[:, :k], H[:k, :k]`). -/
-def trimPaddingInEigs : Bool := false  -- mirrors /repo: cola/linalg/decompositions/arnoldi.py `Q, H = Q[:, :-1], H[:-1]`
+/-- Switch for (former) defect (a).  `true` mirrors /repo since commit 0459ce4 ("arnoldi_eigs uses only
+the executed Arnoldi steps"): `k = info['iterations'] - 1; Q, H = Q[:, :k], H[:k, :k]` — the leading
+block of the executed steps goes to `eig`.  `false` is the old behaviour (`Q, H = Q[:, :-1], H[:-1]`:
+the square part of the whole zero-padded buffer, `max_iters` columns whatever the number of executed
+steps), kept as a variant for the regression lemma `C15_untrimmed_eigs_spurious_zero`. -/
+def trimPaddingInEigs : Bool := true  -- mirrors /repo: cola/linalg/decompositions/arnoldi.py `k = info['iterations'] - 1; Q, H = Q[:, :k], H[:k, :k]`
 
 /-- number of rows/columns of the matrix given to `xnp.eig` -/
 def eigsSize (trim : Bool) (M steps : Nat) : Nat := if trim then steps else M
